@@ -52,6 +52,9 @@ Definition plan_init (b : list Z) : res plan :=
   | _ => Err SB_EPARSE
   end.
 
+(** sb_rth_plan_init_empty: no bytes, scale 1, no points *)
+Definition plan_empty : plan := mkplan [] 1 0.
+
 Definition offset_of_point (pl : plan) (i : nat) : nat := (rth_header_length + 4 * i)%nat.
 Definition offset_of_entry_table (pl : plan) : nat := offset_of_point pl (pl_num_points pl).
 
